@@ -31,6 +31,7 @@ from .rseval import Struct, Enum, NONE, Some, Uninterp
 FILES = ["src/naming/service.rs", "src/naming/model.rs"]
 H_TIMEOUT, O_TIMEOUT = 15, 30
 GRID = [5, 14, 16, 29, 31, 46, 62]
+CLOSURE = [80, 100, 120]   # timer rounds of the silence closure behind the last grid point (62 + 15 < 80, 62 + 30 < 100)
 
 
 def load():
@@ -176,6 +177,57 @@ def scenario(prog, nops, stats, mode, rich=False):
         overdue = {}
         taken_over = {}
         clock = 0
+
+        def do_tick(now_t):
+            """one timer round at now_t with its oracle; returns a violation tuple or None"""
+            before = {k: (v["healthy"], v) for k, v in svc["instances"].items()}
+            h_time, o_time = now_t - H_TIMEOUT, now_t - O_TIMEOUT
+            if o_time < 0:
+                raise rseval.PathAbort()  # u64 casts of negative times are outside the scenario (the actor starts long after the epoch)
+            rec.append({"op": "tick", "now": now_t})
+            it.call_method("Service", "time_check", svc, [h_time, o_time])
+            log.append(("tick", now_t))
+            for k, (was_healthy, v) in before.items():
+                age = now_t - v["last_modified_millis"]
+                local = z3.BoolVal(True) if taken_over.get(k) else (rseval.to_bv(v["from_cluster"]) == 0)
+                supervised = z3.simplify(z3.And(rseval.to_bool(v["ephemeral"]), z3.Not(rseval.to_bool(v["from_grpc"])), local))
+                if taken_over.get(k) and not z3.is_true(z3.simplify(rseval.to_bv(v["from_cluster"]) == 0)):
+                    cover("tick over an instance taken over from another node")
+                nowv = svc["instances"].get(k)
+                sup = supervised if isinstance(supervised, bool) else (True if z3.is_true(supervised) else False if z3.is_false(supervised) else it.branch(supervised))
+                if not sup:
+                    if nowv is None:
+                        return ("violation", "time_check removes an instance that is persistent, gRPC-connected or owned by another node", log, "unsupervised-expired")
+                    if possible(rseval.to_bool(nowv["healthy"]) != rseval.to_bool(was_healthy)):
+                        return ("violation", "time_check changes the health of an instance that is persistent, gRPC-connected or owned by another node", log, "unsupervised-expired")
+                    continue
+                wh = was_healthy if isinstance(was_healthy, bool) else it.branch(rseval.to_bool(was_healthy))
+                if age < H_TIMEOUT:
+                    if nowv is None:
+                        return ("violation", "an instance whose last heartbeat is younger than the health time-out is removed", log, "expired-while-beating")
+                    if wh:
+                        if possible(z3.Not(rseval.to_bool(nowv["healthy"]))):
+                            return ("violation", "an instance whose last heartbeat is younger than the health time-out is marked unhealthy", log, "expired-while-beating")
+                    cover("beating instance survives a tick")
+                if age > H_TIMEOUT and wh and nowv is not None:
+                    if possible(rseval.to_bool(nowv["healthy"])):
+                        return ("violation", "an instance silent for longer than the health time-out is still reported healthy after time_check", log, "silent-not-unhealthy")
+                    cover("silent instance marked unhealthy")
+                if age < O_TIMEOUT and nowv is None:
+                    return ("violation", "an instance silent for less than the instance time-out is removed", log, "removed-too-early")
+                if age > O_TIMEOUT and not wh and nowv is not None:
+                    # removal is two-phase (the tick that finds it unhealthy queues it, the next one removes it): it must be gone
+                    # at the second tick that sees it unhealthy and older than the instance time-out
+                    if overdue.get(k):
+                        return ("violation", "an unhealthy instance silent for longer than the instance time-out survives two consecutive time checks", log, "silent-not-removed")
+                    overdue[k] = True
+                if age > O_TIMEOUT and not wh and nowv is None:
+                    cover("silent unhealthy instance removed")
+            for k in list(shadow):
+                if skey(k) not in svc["instances"]:
+                    shadow.pop(k)
+            return None
+
         for i in range(nops):
             ops = ["register", "remove", "mark_invalid", "mark_valid", "refresh"] if mode == "book" else ["register", "tick", "takeover", "probe_failed"]
             op = pick(it, opv[i], ops) if not (mode == "time" and i == 0) else "register"
@@ -295,52 +347,9 @@ def scenario(prog, nops, stats, mode, rich=False):
                 if now_t < clock:
                     raise rseval.PathAbort()
                 clock = now_t
-                before = {k: (v["healthy"], v) for k, v in svc["instances"].items()}
-                h_time, o_time = now_t - H_TIMEOUT, now_t - O_TIMEOUT
-                if o_time < 0:
-                    raise rseval.PathAbort()  # u64 casts of negative times are outside the scenario (the actor starts long after the epoch)
-                rec.append({"op": "tick", "now": now_t})
-                it.call_method("Service", "time_check", svc, [h_time, o_time])
-                log.append(("tick", now_t))
-                for k, (was_healthy, v) in before.items():
-                    age = now_t - v["last_modified_millis"]
-                    local = z3.BoolVal(True) if taken_over.get(k) else (rseval.to_bv(v["from_cluster"]) == 0)
-                    supervised = z3.simplify(z3.And(rseval.to_bool(v["ephemeral"]), z3.Not(rseval.to_bool(v["from_grpc"])), local))
-                    if taken_over.get(k) and not z3.is_true(z3.simplify(rseval.to_bv(v["from_cluster"]) == 0)):
-                        cover("tick over an instance taken over from another node")
-                    nowv = svc["instances"].get(k)
-                    sup = supervised if isinstance(supervised, bool) else (True if z3.is_true(supervised) else False if z3.is_false(supervised) else it.branch(supervised))
-                    if not sup:
-                        if nowv is None:
-                            return ("violation", "time_check removes an instance that is persistent, gRPC-connected or owned by another node", log, "unsupervised-expired")
-                        if possible(rseval.to_bool(nowv["healthy"]) != rseval.to_bool(was_healthy)):
-                            return ("violation", "time_check changes the health of an instance that is persistent, gRPC-connected or owned by another node", log, "unsupervised-expired")
-                        continue
-                    wh = was_healthy if isinstance(was_healthy, bool) else it.branch(rseval.to_bool(was_healthy))
-                    if age < H_TIMEOUT:
-                        if nowv is None:
-                            return ("violation", "an instance whose last heartbeat is younger than the health time-out is removed", log, "expired-while-beating")
-                        if wh:
-                            if possible(z3.Not(rseval.to_bool(nowv["healthy"]))):
-                                return ("violation", "an instance whose last heartbeat is younger than the health time-out is marked unhealthy", log, "expired-while-beating")
-                        cover("beating instance survives a tick")
-                    if age > H_TIMEOUT and wh and nowv is not None:
-                        if possible(rseval.to_bool(nowv["healthy"])):
-                            return ("violation", "an instance silent for longer than the health time-out is still reported healthy after time_check", log, "silent-not-unhealthy")
-                        cover("silent instance marked unhealthy")
-                    if age < O_TIMEOUT and nowv is None:
-                        return ("violation", "an instance silent for less than the instance time-out is removed", log, "removed-too-early")
-                    if age > O_TIMEOUT and not wh and nowv is not None:
-                        # removal is two-phase (the tick that finds it unhealthy queues it, the next one removes it): it must be gone
-                        # at the second tick that sees it unhealthy and older than the instance time-out
-                        if overdue.get(k):
-                            return ("violation", "an unhealthy instance silent for longer than the instance time-out survives two consecutive time checks", log, "silent-not-removed")
-                        overdue[k] = True
-                    if age > O_TIMEOUT and not wh and nowv is None:
-                        cover("silent unhealthy instance removed")
-                for k in list(shadow):
-                    if skey(k) not in svc["instances"]:
-                        shadow.pop(k)
+                bad = do_tick(now_t)
+                if bad:
+                    return bad
             if rec:
                 rec[-1]["model_state"] = snapshot(svc)
             bad = check_invariants(svc, log)
@@ -361,6 +370,13 @@ def scenario(prog, nops, stats, mode, rich=False):
                     for p_ in got_ports:
                         if p_ not in shadow:
                             return ("violation", "instance query returns an address that is not registered", log, "query-foreign")
+        if mode == "time":
+            # silence closure: nobody beats any more, the timer keeps firing - at every later grid point and at CLOSURE. Every supervised instance must
+            # go unhealthy and then away (the tick oracle says when); an instance whose timer entry was lost on the way shows here, whatever the length of the history
+            for now_t in [g for g in GRID if g > clock] + CLOSURE:
+                bad = do_tick(now_t)
+                if bad:
+                    return (bad[0], bad[1] + " [in the silence that follows the history: timer rounds at every later grid point]", bad[2], bad[3])
         return ("ok", None, log, None)
     paths = it.explore(thunk, max_paths=600000)
     stats["paths"] += len(paths)
